@@ -143,7 +143,7 @@ func (e *keyEnv) checkKey(i int) {
 	run.Count("key.shape:"+shape, 1)
 	pkI := priv.PubKey()
 	if pkI == nil {
-		run.Violation("pubkey-nil-for-valid-scalar", label, map[string]any{"priv": hex.EncodeToString(priv.Key)})
+		viol(run, "pubkey-nil-for-valid-scalar", label, map[string]any{"priv": hex.EncodeToString(priv.Key)})
 		return
 	}
 	pub := pkI.(*ethsecp256k1.PubKey)
@@ -159,14 +159,14 @@ func (e *keyEnv) checkKey(i int) {
 	refPriv, refPub := btcec.PrivKeyFromBytes(priv.Key)
 	_ = refPriv
 	if !bytes.Equal(refPub.SerializeCompressed(), pub.Key) {
-		run.Violation("pubkey-mismatch", label, w(map[string]any{"expected_pub": hex.EncodeToString(refPub.SerializeCompressed())}))
+		viol(run, "pubkey-mismatch", label, w(map[string]any{"expected_pub": hex.EncodeToString(refPub.SerializeCompressed())}))
 	}
 	wantAddr, err := independentAddress(pub.Key)
 	if err != nil {
 		panic(err)
 	}
 	if got := pub.Address().Bytes(); !bytes.Equal(got, wantAddr) {
-		run.Violation("address-mismatch", label, w(map[string]any{"expected": hex.EncodeToString(wantAddr), "observed": hex.EncodeToString(got)}))
+		viol(run, "address-mismatch", label, w(map[string]any{"expected": hex.EncodeToString(wantAddr), "observed": hex.EncodeToString(got)}))
 	}
 	run.Count("addr.checked", 1)
 	if wantAddr[0] == 0 {
@@ -182,7 +182,7 @@ func (e *keyEnv) checkKey(i int) {
 	digest := keccak(msg)
 	sig, err := priv.Sign(digest)
 	if err != nil || len(sig) != 65 {
-		run.Violation("sign-failed", label, w(map[string]any{"err": fmt.Sprint(err), "len": len(sig)}))
+		viol(run, "sign-failed", label, w(map[string]any{"err": fmt.Sprint(err), "len": len(sig)}))
 		return
 	}
 	ws := func(extra map[string]any) map[string]any {
@@ -210,10 +210,10 @@ func (e *keyEnv) checkKey(i int) {
 	}
 	// positive, both signature forms
 	if !pub.VerifySignature(msg, sig) {
-		run.Violation("signature-rejected-for-own-key-and-message:rsv", label, ws(nil))
+		viol(run, "signature-rejected-for-own-key-and-message:rsv", label, ws(nil))
 	}
 	if !pub.VerifySignature(msg, sig[:64]) {
-		run.Violation("signature-rejected-for-own-key-and-message:rs", label, ws(nil))
+		viol(run, "signature-rejected-for-own-key-and-message:rs", label, ws(nil))
 	}
 	run.Count("sig.positive-verified", 2)
 	// the produced bytes are a genuine ECDSA signature by an independent verifier, and recover to the key
@@ -222,19 +222,19 @@ func (e *keyEnv) checkKey(i int) {
 		rs.SetByteSlice(sig[:32])
 		ss.SetByteSlice(sig[32:64])
 		if !btcecdsa.NewSignature(&rs, &ss).Verify(digest, refPub) {
-			run.Violation("signature-not-valid-ecdsa", label, ws(nil))
+			viol(run, "signature-not-valid-ecdsa", label, ws(nil))
 		}
 		compact := append([]byte{27 + 4 + sig[64]}, sig[:64]...)
 		rec, _, err := btcecdsa.RecoverCompact(compact, digest)
 		if err != nil || !bytes.Equal(rec.SerializeCompressed(), pub.Key) {
-			run.Violation("signature-recovers-other-key", label, ws(map[string]any{"err": fmt.Sprint(err)}))
+			viol(run, "signature-recovers-other-key", label, ws(map[string]any{"err": fmt.Sprint(err)}))
 		}
 		run.Count("sig.independent-verify-and-recover", 1)
 	}
 
 	neg := func(class string, pk *ethsecp256k1.PubKey, m, s []byte) {
 		if pk.VerifySignature(m, s) {
-			run.Violation("signature-verifies-after-perturbation:"+class, label, ws(map[string]any{"perturbed_pub": hex.EncodeToString(pk.Key), "perturbed_msg": short(m), "perturbed_sig": hex.EncodeToString(s)}))
+			viol(run, "signature-verifies-after-perturbation:"+class, label, ws(map[string]any{"perturbed_pub": hex.EncodeToString(pk.Key), "perturbed_msg": short(m), "perturbed_sig": hex.EncodeToString(s)}))
 			return
 		}
 		run.Count("sig.rejected:"+class, 1)
@@ -310,7 +310,7 @@ func (e *keyEnv) checkKey(i int) {
 	// blobs that no key produced must not verify under any key for any message
 	for name, blob := range degenerate {
 		if pub.VerifySignature(msg, blob) {
-			run.Violation("degenerate-signature-verifies:"+name, label, ws(map[string]any{"blob": hex.EncodeToString(blob)}))
+			viol(run, "degenerate-signature-verifies:"+name, label, ws(map[string]any{"blob": hex.EncodeToString(blob)}))
 		} else {
 			run.Count("sig.degenerate-rejected", 1)
 		}
@@ -334,7 +334,7 @@ func genMsgOther(r *vh.RNG, msg []byte) []byte {
 func (e *keyEnv) checkEncodings(label string, r *vh.RNG, priv *ethsecp256k1.PrivKey, pub *ethsecp256k1.PubKey, shape string, w func(map[string]any) map[string]any) {
 	run := e.run
 	fail := func(encName string, detail any) {
-		run.Violation("encoding-roundtrip-mismatch:"+encName, label, w(map[string]any{"encoding": encName, "detail": fmt.Sprint(detail)}))
+		viol(run, "encoding-roundtrip-mismatch:"+encName, label, w(map[string]any{"encoding": encName, "detail": fmt.Sprint(detail)}))
 	}
 	ok := func(encName string) {
 		run.Count("enc.roundtrip-ok:"+encName, 1)
